@@ -680,7 +680,15 @@ struct Form {
 
 const BODY_STRING: &str = "h\u{e9}llo string body";
 const BODY_BYTES: &[u8] = &[0, 255, 1, 2, 128];
-const BODY_JSON: &str = r#"{"k":"vé","n":7}"#;
+const BODY_JSON: &str = r#"{"z":"vé","n":7,"a":21.3}"#;
+/// a typed JSON body: members not in alphabetical order, one of them an f32 (an encoder that goes through a
+/// generic JSON value would reorder the one and widen the other)
+#[derive(Serialize)]
+struct JBody {
+    z: String,
+    n: u32,
+    a: f32,
+}
 
 fn expected_url(inp: &Value, out: &Value, v: usize) -> String {
     let mut u = Url::parse(url_in(inp["url"].as_str().unwrap(), v)).unwrap();
@@ -728,7 +736,7 @@ fn abstract_request(req: &HttpRequest, inp: &Value, out: &Value, v: usize) -> Va
            "query": out["query"], "body": body, "headers": hs})
 }
 
-const BODY_JSON_WIRE: &str = r#"{"k":"vé","n":7}"#;
+const BODY_JSON_WIRE: &str = r#"{"z":"vé","n":7,"a":21.3}"#;
 
 fn hval(tok: &str) -> &'static str {
     match tok {
@@ -765,7 +773,7 @@ macro_rules! apply_ops {
                     "string" => b.body_string(BODY_STRING.to_string()),
                     "empty" => b.body_string(String::new()),
                     "bytes" => b.body_bytes(BODY_BYTES),
-                    "json" => b.body_json(&serde_json::from_str::<Value>(BODY_JSON).unwrap()).unwrap(),
+                    "json" => b.body_json(&JBody { z: "vé".into(), n: 7, a: 21.3 }).unwrap(),
                     _ => b.body_form(&Form { a: 1, b: "x y".into() }).unwrap(),
                 },
                 _ => {
